@@ -325,11 +325,14 @@ def _run_case(item):
 
 def run(ctx: Ctx):
     from ..translate import gen
-    gen.regenerate(ctx, ["Constants", "StepBody"])
+    gen.regenerate(ctx, ["Constants", "StepBody", "Thermo"])
     leanproj.check_theorems(ctx, MODULE, THEOREMS)
     from .registry import THEOREMS_STEPTIE
     # translator tie: the statements of one_step as they stand in the source ARE the model's velocity-Verlet step
     leanproj.check_theorems(ctx, "PyseqmVerif.Properties.StepTie", [t for t in THEOREMS_STEPTIE if "basic" in t or "xl_is" in t or "esmd" in t])
+    from .registry import THEOREMS_THERMOTIE
+    # translator tie: the kinetic energy / temperature written for a step are the model's functions of the stored velocities
+    leanproj.check_theorems(ctx, "PyseqmVerif.Properties.ThermoTie", [t for t in THEOREMS_THERMOTIE if "kinetic" in t or "temperature" in t or "setDofBasic" in t])
     from .registry import THEOREMS_C08B
     leanproj.check_theorems(ctx, "PyseqmVerif.Properties.C10b", THEOREMS_C08B)
     from .registry import THEOREMS_C08C
